@@ -54,6 +54,35 @@ theorem loads (w n : Nat) : vecLoads w n ++ tailLoads w n = List.range n ∧
 and `Cosine.Distance` wraps the kernel's value in `Abs` (regenerated) -/
 theorem wrappers : Generated.simdWrappersPassLen = true ∧ Generated.cosineDistanceAbs = true := by decide
 
+/-! ### alignment
+
+The AVX kernels load with `vmovups` (any alignment). The SSE kernels load four floats with aligned
+loads: the `j`-th vector load of an operand that starts at byte address `p` reads address
+`p + 16 j` and faults unless that is a multiple of 16. `sseSpaceImpl` therefore calls an SSE kernel
+only when no vector load happens (`n < 4`) or `(pa | pb) & 15 = 0`. -/
+
+/-- the guard's bit test says: both operands start on a 16-byte boundary -/
+theorem guard_iff (pa pb : Nat) : (pa ||| pb) % 16 = 0 ↔ pa % 16 = 0 ∧ pb % 16 = 0 := by
+  have h16 : (16 : Nat) = 2 ^ 4 := rfl
+  rw [h16, Nat.or_mod_two_pow, Nat.or_eq_zero_iff]
+
+/-- **no aligned load faults**: under the guard every vector load of either operand is 16-byte
+aligned, for every length -/
+theorem sse_loads_aligned (pa pb n : Nat) (hg : n < 4 ∨ (pa ||| pb) % 16 = 0) (j : Nat) (hj : j < n / 4) :
+    (pa + 16 * j) % 16 = 0 ∧ (pb + 16 * j) % 16 = 0 := by
+  rcases hg with hn | hg
+  · omega
+  · obtain ⟨ha, hb⟩ := (guard_iff pa pb).mp hg
+    omega
+
+/-- the guard, and the AVX implementation's exclusive use of the AVX kernels, are in the code on
+this run (regenerated) -/
+theorem alignment_in_code :
+    Generated.sseGuardedByAlignment = true ∧ Generated.avxImplCallsAvxKernelsOnly = true := by decide
+
+/-- why `|` and not `&` (seeded change C15-C): `pa & pb & 15 = 0` lets an operand at offset 4 through -/
+theorem and_guard_is_wrong : (0 &&& 4) % 16 = 0 ∧ ¬ ((0 : Nat) % 16 = 0 ∧ (4 : Nat) % 16 = 0) := by decide
+
 /-- non-vacuity over ℚ-like arithmetic is immediate: the hypotheses are only equal lengths -/
 example (a b : List α) (h : a.length = b.length) : 0 ≤ euclidSq (exactOps α sq (|·|)) 8 a b :=
   (euclid_metric sq 8 (Or.inl rfl) a b h).2.1
